@@ -828,10 +828,13 @@ def _compare(rec, R, callno, exp, direct, got, injected):
   def problem(clause, what):
     # signature = <what is demanded>:<kind of callable>:<rule the specification applies>[:<fault point>]
     family = 'builtin_in_context' if rec['kind'] in ('bi_eval', 'bi_super', 'bi_globals', 'bi_locals') else rec['kind']
-    rule = exp['rule']
-    if rec['kind'] == 'callable_partialsub' and GROUP[clause] == 'transparency':
-      rule = 'any'        # one root cause whatever the specification's rule: the object is unwrapped like a plain partial
-    sig = 'c13:%s:%s:%s' % (GROUP[clause], family, rule)
+    rule, group = exp['rule'], GROUP[clause]
+    if rec['kind'] == 'callable_partialsub':
+      # one root cause whatever rule / clause shows it first: the object is unwrapped like a plain partial,
+      # its own __call__ never runs (with a fault armed the symptom is a different exception, a missing
+      # warning, ...)
+      rule, group = 'any', 'transparency'
+    sig = 'c13:%s:%s:%s' % (group, family, rule)
     if rec['fault'] != 'none' and exp['failat'] and rule != 'any':
       sig += ':' + rec['fault']
     w = dict(descriptor={k: v for k, v in rec.items() if k != 'calls'}, call=callno, expected=exp,
